@@ -67,7 +67,7 @@ def extra_names(h, sp_reads):
 def run(tier, seed, replay=None):
     res = C.Result("C06", tier, seed)
     res.rule = ("histories of add / replace / remove / rename / compact / flush on real archives (V1..V4, with listfile, 16-slot hash table, names that collide "
-                "on their home slot, in one group next to occupied slots and in further groups with never-used slots on both sides): every history of length <=2 over a 3-name alphabet (<=3 thorough), every history of length 4 over {add second, add third, remove first, replace second} on chains of three colliding names, plus seeded histories of up to 40 operations incl. more "
+                "on their home slot, in one group next to occupied slots and in further groups with never-used slots on both sides): every history of length <=2 over a 3-name alphabet (<=3 thorough), every history of length 4 over {add second, add third, remove first, replace second} and every history of length 3 over these plus {remove second, add second without replacement, rename second to third} on chains of three colliding names, plus seeded histories of up to 40 operations incl. more "
                 "additions than free slots; each history runs in its own process under a 10 s watchdog, then the archive is closed, reopened and every name read; "
                 "per-operation outcomes and the final contents are compared with the extracted specification map; non-trivial = history has >=2 operations; distinct = distinct history")
     res.assumptions = ["crash-free execution (crashes during modification are not part of this property; C12 covers build/compact only)",
@@ -119,6 +119,10 @@ def run(tier, seed, replay=None):
     for g in [coll[:3]] + [g for g in groups[:1]]:
         four = [op_add(g[1], 1), op_add(g[2], 2, "2"), ("r", C.hexs(g[0].encode())), op_add(g[1], 5, "0", "0", "1")]
         hist += [list(t) for t in itertools.product(four, repeat=4)]
+        # and every history of length 3 that also removes, renames or re-adds (without replacement) the second name: the operations
+        # that have to FIND a name stored behind the slot of a removed one
+        seven = four + [("r", C.hexs(g[1].encode())), op_add(g[1], 4, "0", "0", "0"), ("m", C.hexs(g[1].encode()), C.hexs(g[2].encode()))]
+        hist += [list(t) for t in itertools.product(seven, repeat=3)]
     # the same short histories on collision groups whose probe chains have never-used slots on both sides
     for gi, g in enumerate(groups):
         ag = []
